@@ -11,6 +11,7 @@ import (
 	"errors"
 	"fmt"
 	"io"
+	"log"
 	"math/rand"
 	"net/http"
 	"net/http/httptest"
@@ -21,7 +22,7 @@ import (
 )
 
 type c06Op struct {
-	K      string `json:"k"` // wh w fl bf af json blob nc redir stream xml jsonp
+	K      string `json:"k"` // wh w fl bf af json blob nc redir stream xml jsonp rcfl fefl unwrap copy
 	C      int    `json:"c,omitempty"`
 	N      int    `json:"n,omitempty"`
 	H      int    `json:"h,omitempty"`
@@ -35,6 +36,10 @@ type c06Case struct {
 	Fresh bool    `json:"fresh"` // true: e.NewContext (Status starts at 0); false: e.ServeHTTP
 	Cap   int     `json:"cap"`   // body bytes the underlying writer accepts; <0 = unlimited
 	Ops   []c06Op `json:"ops"`
+	// the underlying writer also implements io.ReaderFrom, like net/http's connection writer
+	// (httptest.ResponseRecorder does not); echo.Response itself has no ReadFrom, so io.Copy
+	// into it must still go through Response.Write
+	RF bool `json:"rf,omitempty"`
 	// thorough tier: run the program a second time behind a real net/http server and compare
 	// what the client receives with Response.Status / Response.Size
 	RoundTrip bool `json:"round_trip,omitempty"`
@@ -66,6 +71,31 @@ type c06Writer struct {
 	flushes int
 	cap     int
 	trace   *[]c06Ev
+}
+
+// c06WriterRF is the recording writer with io.ReaderFrom: it drains the source into itself,
+// one recorded body write per read, like net/http's (*response).ReadFrom does via io.Copy.
+type c06WriterRF struct{ *c06Writer }
+
+func (w c06WriterRF) ReadFrom(src io.Reader) (int64, error) {
+	buf := make([]byte, 32*1024)
+	var total int64
+	for {
+		n, rerr := src.Read(buf)
+		if n > 0 {
+			k, werr := w.c06Writer.Write(buf[:n])
+			total += int64(k)
+			if werr != nil {
+				return total, werr
+			}
+		}
+		if rerr == io.EOF {
+			return total, nil
+		}
+		if rerr != nil {
+			return total, rerr
+		}
+	}
 }
 
 var errC06Short = errors.New("underlying writer: capacity exhausted")
@@ -211,6 +241,19 @@ func c06ModelOp(o c06Op) string {
 		return wJoin("11", wInt(o.C), wInt(o.N))
 	case "jsonp":
 		return wJoin("12", wInt(o.C), wInt(o.H), wInt(o.N))
+	case "rcfl":
+		return "13"
+	case "fefl":
+		return "14"
+	case "unwrap":
+		return "15"
+	case "copy":
+		p := []string{"16", wInt(len(o.Chunks))}
+		for _, c := range o.Chunks {
+			p = append(p, wInt(c))
+		}
+		p = append(p, wBool(o.RErr))
+		return strings.Join(p, " ")
 	}
 	return "0"
 }
@@ -229,7 +272,8 @@ func c06CarriesStatus(o c06Op) bool {
 // may the op make the headers go out, and with which status (pending = Response.Status before)?
 func c06ExpectedFirstStatus(o c06Op, pending int) (int, bool) {
 	switch o.K {
-	case "w", "fl":
+	case "w", "fl", "rcfl", "fefl", "copy":
+		// (a copy of an empty source need not send anything; IF it sends, then the pending status)
 		if pending == 0 {
 			return 200, true
 		}
@@ -239,7 +283,7 @@ func c06ExpectedFirstStatus(o c06Op, pending int) (int, bool) {
 			return 0, false
 		}
 		return o.C, true
-	case "bf", "af":
+	case "bf", "af", "unwrap":
 		return 0, false
 	}
 	if c06CarriesStatus(o) {
@@ -372,9 +416,29 @@ func c06Exec(ctx echo.Context, o c06Op, onBefore, onAfter func(h int), onReg fun
 		err = ctx.XMLBlob(o.C, make([]byte, o.N))
 	case "jsonp":
 		err = ctx.JSONPBlob(o.C, strings.Repeat("f", o.H), make([]byte, o.N))
+	case "rcfl":
+		// what net/http itself and handlers written against Go >= 1.20 do
+		err = http.NewResponseController(r).Flush()
+	case "fefl":
+		// the error-returning flush convention, if the writer offers it
+		var rw http.ResponseWriter = r
+		if fe, ok := rw.(interface{ FlushError() error }); ok {
+			err = fe.FlushError()
+		} else {
+			r.Flush()
+		}
+	case "unwrap":
+		if r.Unwrap() != r.Writer {
+			err = errC06Unwrap
+		}
+	case "copy":
+		// a source without WriteTo: io.Copy looks for io.ReaderFrom on the destination
+		_, err = io.Copy(r, &c06Reader{chunks: append([]int(nil), o.Chunks...), rerr: o.RErr})
 	}
 	return
 }
+
+var errC06Unwrap = errors.New("Unwrap does not hand out the wrapped writer")
 
 // c06RoundTrip runs the program behind a real net/http server: the status the client receives
 // must be Response.Status and the body length Response.Size (net/http drops bodies of
@@ -393,17 +457,29 @@ func c06RoundTrip(c *c06Case) string {
 	var status int
 	var size int64
 	done := make(chan struct{})
+	// after-hooks run after each body write: so once an after-hook is registered, the last run
+	// of an after-hook has seen every byte written since (the real connection writer implements
+	// io.ReaderFrom, which is where a copy fast path would bypass Response.Write)
+	afterReg, afterRuns := false, 0
+	var sizeAtReg, sizeAtLastRun int64
 	e.GET("/", func(ctx echo.Context) error {
-		nop := func(int) {}
-		for _, o := range c.Ops {
-			c06Exec(ctx, o, nop, nop, func(int, int) {})
-		}
 		r := ctx.Response()
+		for _, o := range c.Ops {
+			c06Exec(ctx, o, func(int) {},
+				func(int) { afterRuns++; sizeAtLastRun = r.Size },
+				func(code, _ int) {
+					if code == c06RegA && !afterReg {
+						afterReg, sizeAtReg = true, r.Size
+					}
+				})
+		}
 		committed, status, size = r.Committed, r.Status, r.Size
 		close(done)
 		return nil
 	})
-	srv := httptest.NewServer(e)
+	srv := httptest.NewUnstartedServer(e)
+	srv.Config.ErrorLog = log.New(io.Discard, "", 0)
+	srv.Start()
 	defer srv.Close()
 	// the server's own client/transport: Server.Close of a concurrently running case closes the
 	// idle connections of http.DefaultTransport
@@ -430,6 +506,9 @@ func c06RoundTrip(c *c06Case) string {
 	if int64(len(body)) != size {
 		return fmt.Sprintf("real server: client received %d body bytes, Response.Size=%d (status %d)", len(body), size, resp.StatusCode)
 	}
+	if afterReg && size > sizeAtReg && (afterRuns == 0 || sizeAtLastRun != size) {
+		return fmt.Sprintf("real server: %d body bytes were written after an after-hook was registered (at Size=%d) but the last of %d after-hook runs saw Size=%d", size-sizeAtReg, sizeAtReg, afterRuns, sizeAtLastRun)
+	}
 	return ""
 }
 
@@ -439,6 +518,10 @@ func c06Run(ci any) (res Result) {
 	w := &c06Writer{h: http.Header{}, cap: c.Cap, trace: &trace}
 	if c.Cap < 0 {
 		w.cap = -1
+	}
+	var under http.ResponseWriter = w
+	if c.RF {
+		under = c06WriterRF{w}
 	}
 	e := echo.New()
 	lg := &c06Logger{Logger: e.Logger, trace: &trace}
@@ -529,6 +612,12 @@ func c06Run(ci any) (res Result) {
 			if int(r.Size)-int(prevSize) != w.body-prevBody {
 				fail(i, fmt.Sprintf("Size grew by %d but %d bytes were written", int(r.Size)-int(prevSize), w.body-prevBody))
 			}
+			if o.K == "unwrap" && err != nil {
+				fail(i, "Response.Unwrap() does not return the wrapped writer")
+			}
+			if (o.K == "rcfl" || o.K == "fefl") && err != nil {
+				fail(i, fmt.Sprintf("flushing through the optional interfaces failed although the underlying writer can flush: %v", err))
+			}
 			if o.K == "w" {
 				if retN != w.body-prevBody || (err != nil) != (retN < o.N) {
 					fail(i, fmt.Sprintf("Write(%d bytes) returned (%d, err=%v) but the writer accepted %d", o.N, retN, err != nil, w.body-prevBody))
@@ -549,10 +638,10 @@ func c06Run(ci any) (res Result) {
 	req := httptest.NewRequest(http.MethodGet, "/", nil)
 	if c.Fresh {
 		tags["fresh-context"] = true
-		handler(e.NewContext(req, w))
+		handler(e.NewContext(req, under))
 	} else {
 		e.GET("/", handler)
-		e.ServeHTTP(w, req)
+		e.ServeHTTP(under, req)
 	}
 	if msg := c06ScanTrace(trace); msg != "" && oracle == "" {
 		oracle = "hooks/order: " + msg
@@ -590,7 +679,13 @@ func c06Run(ci any) (res Result) {
 			}
 		}
 	}
-	if firstTouch == "fl" {
+	if c.RF {
+		tags["underlying-writer-is-ReaderFrom"] = true
+	}
+	if firstTouch == "rcfl" || firstTouch == "fefl" {
+		tags["flush-first-via-ResponseController/FlushError"] = true
+	}
+	if firstTouch == "fl" || firstTouch == "rcfl" || firstTouch == "fefl" {
 		tags["flush-first"] = true
 	}
 	if nb > 0 {
@@ -610,7 +705,7 @@ func c06Run(ci any) (res Result) {
 		tl = append(tl, t)
 	}
 	return Result{Ops: c06Ops(c), Obs: strings.Join(obs, " "), Oracle: oracle, Tags: tl,
-		Nontrivial: opsAfterCommit > 0 && (nb+na > 0 || firstTouch == "fl" || tags["short-write"] || len(tl) >= 4)}
+		Nontrivial: opsAfterCommit > 0 && (nb+na > 0 || firstTouch == "fl" || firstTouch == "rcfl" || firstTouch == "fefl" || tags["short-write"] || len(tl) >= 4)}
 }
 
 func c06Ops(c *c06Case) string {
@@ -658,7 +753,7 @@ func c06Size(r *rand.Rand) int {
 }
 
 func c06GenOp(r *rand.Rand) c06Op {
-	switch r.Intn(16) {
+	switch r.Intn(20) {
 	case 0, 1:
 		return c06Op{K: "wh", C: c06Code(r)}
 	case 2, 3:
@@ -689,8 +784,23 @@ func c06GenOp(r *rand.Rand) c06Op {
 		return o
 	case 14:
 		return c06Op{K: "xml", C: c06Code(r), N: c06Size(r)}
+	case 15:
+		return c06Op{K: "jsonp", C: c06Code(r), H: r.Intn(6), N: c06Size(r)}
+	case 16:
+		return c06Op{K: "rcfl"}
+	case 17:
+		return c06Op{K: "fefl"}
+	case 18:
+		if r.Intn(3) == 0 {
+			return c06Op{K: "unwrap"}
+		}
+		return c06Op{K: "rcfl"}
 	}
-	return c06Op{K: "jsonp", C: c06Code(r), H: r.Intn(6), N: c06Size(r)}
+	o := c06Op{K: "copy", RErr: r.Intn(5) == 0}
+	for k := r.Intn(4); k > 0; k-- {
+		o.Chunks = append(o.Chunks, c06Size(r))
+	}
+	return o
 }
 
 // total bytes a program would write with an unlimited writer (to aim capacities at boundaries)
@@ -705,7 +815,7 @@ func c06Total(ops []c06Op) int {
 			if !o.Bad {
 				t += o.N + 3
 			}
-		case "stream":
+		case "stream", "copy":
 			for _, k := range o.Chunks {
 				t += k
 			}
@@ -723,6 +833,17 @@ func c06Adversarial(r *rand.Rand) []c06Op {
 	h := 1 + r.Intn(3)
 	tpl := [][]c06Op{
 		{{K: "fl"}, {K: "wh", C: c1}},
+		// the first flush comes through http.ResponseController / the FlushError convention
+		{{K: "rcfl"}, {K: "wh", C: c1}},
+		{{K: "bf", H: h}, {K: "rcfl"}, {K: "nc", C: c1}, {K: "w", N: 2}},
+		{{K: "bf", H: h}, {K: "fefl"}, {K: "blob", C: c1, CT: 1, N: 3}},
+		{{K: "json", C: c1, Bad: true}, {K: "rcfl"}, {K: "wh", C: c2}},
+		{{K: "unwrap"}, {K: "fefl"}, {K: "unwrap"}, {K: "json", C: c1, N: 1}},
+		// bodies produced by io.Copy from a source without WriteTo, with after-hooks watching
+		{{K: "af", H: h}, {K: "stream", C: c1, Chunks: []int{3, 0, 2}}},
+		{{K: "af", H: h}, {K: "copy", Chunks: []int{4, 1}}, {K: "af", H: h + 1}, {K: "copy", Chunks: []int{2}}},
+		{{K: "bf", H: h}, {K: "af", H: h}, {K: "copy", Chunks: []int{0, 0}}, {K: "wh", C: c1}, {K: "copy", Chunks: []int{5}, RErr: true}},
+		{{K: "af", H: h}, {K: "w", N: 1}, {K: "stream", C: c2, Chunks: []int{2, 2}, RErr: true}},
 		{{K: "bf", H: h}, {K: "wh", C: 103}, {K: "wh", C: c1}, {K: "w", N: 2}},
 		{{K: "wh", C: 100}, {K: "blob", C: c1, CT: 1, N: 3}},
 		{{K: "bf", H: h}, {K: "nc", C: 102}, {K: "json", C: c1, N: 1}},
@@ -756,16 +877,16 @@ func c06Adversarial(r *rand.Rand) []c06Op {
 
 func c06Alphabet() []c06Op {
 	return []c06Op{
-		{K: "wh", C: 404}, {K: "wh", C: 201}, {K: "wh", C: 103}, {K: "w", N: 3}, {K: "w", N: 0}, {K: "fl"}, {K: "bf", H: 1}, {K: "af", H: 2},
+		{K: "wh", C: 404}, {K: "rcfl"}, {K: "wh", C: 103}, {K: "w", N: 3}, {K: "w", N: 0}, {K: "fl"}, {K: "bf", H: 1}, {K: "af", H: 2},
 		{K: "json", C: 500, N: 2}, {K: "json", C: 418, Bad: true}, {K: "blob", C: 202, CT: 1, N: 2}, {K: "nc", C: 204},
-		{K: "redir", C: 302}, {K: "stream", C: 206, Chunks: []int{2, 1}},
+		{K: "redir", C: 302}, {K: "stream", C: 206, Chunks: []int{2, 1}}, {K: "copy", Chunks: []int{1, 2}},
 	}
 }
 
 func c06Gen(r *rand.Rand, tier string) []any {
 	var out []any
 	add := func(ops []c06Op) {
-		c := &c06Case{Cap: -1, Ops: ops, Fresh: r.Intn(5) == 0}
+		c := &c06Case{Cap: -1, Ops: ops, Fresh: r.Intn(5) == 0, RF: r.Intn(2) == 0}
 		if r.Intn(4) == 0 {
 			t := c06Total(ops)
 			switch r.Intn(4) {
@@ -790,13 +911,13 @@ func c06Gen(r *rand.Rand, tier string) []any {
 	maxLen := 3
 	nRandom, nAdv, maxOps := 3000, 1500, 12
 	if tier == "thorough" {
-		maxLen = 5
+		maxLen = 4
 		nRandom, nAdv, maxOps = 200000, 50000, 24
 	}
 	var rec func(prefix []c06Op, l int)
 	rec = func(prefix []c06Op, l int) {
 		if len(prefix) > 0 {
-			out = append(out, &c06Case{Cap: -1, Ops: append([]c06Op(nil), prefix...)})
+			out = append(out, &c06Case{Cap: -1, Ops: append([]c06Op(nil), prefix...), RF: len(out)%2 == 0})
 		}
 		if l == 0 {
 			return
@@ -806,6 +927,24 @@ func c06Gen(r *rand.Rand, tier string) []any {
 		}
 	}
 	rec(nil, maxLen)
+	if tier == "thorough" {
+		// every program of exactly 5 operations over a 10-op core alphabet
+		core := []c06Op{
+			{K: "wh", C: 404}, {K: "rcfl"}, {K: "w", N: 3}, {K: "fl"}, {K: "bf", H: 1}, {K: "af", H: 2},
+			{K: "json", C: 500, N: 2}, {K: "json", C: 418, Bad: true}, {K: "blob", C: 202, CT: 1, N: 2}, {K: "copy", Chunks: []int{1, 2}},
+		}
+		var rec5 func(prefix []c06Op)
+		rec5 = func(prefix []c06Op) {
+			if len(prefix) == 5 {
+				out = append(out, &c06Case{Cap: -1, Ops: append([]c06Op(nil), prefix...), RF: len(out)%2 == 0})
+				return
+			}
+			for _, o := range core {
+				rec5(append(prefix, o))
+			}
+		}
+		rec5(nil)
+	}
 	for i := 0; i < nRandom; i++ {
 		n := 1 + r.Intn(maxOps)
 		var ops []c06Op
@@ -868,6 +1007,11 @@ func c06Shrink(ci any) []any {
 		d.RoundTrip = false
 		out = append(out, d)
 	}
+	if c.RF {
+		d := cp()
+		d.RF = false
+		out = append(out, d)
+	}
 	for i, o := range c.Ops {
 		if o.N > 1 {
 			d := cp()
@@ -910,7 +1054,7 @@ func c06Mutate(r *rand.Rand, ci any) []any {
 func init() {
 	register(&Prop{
 		ID:             "C06",
-		Rule:           "handler programs over {WriteHeader, Write, Flush, Before, After, JSON (serialisable or not), String/HTML/JSONBlob/Blob, NoContent, Redirect (valid and invalid codes), Stream, XMLBlob, JSONPBlob}: exhaustive over a 14-op alphabet up to length 3 (thorough: 5), random programs of 1-12 ops (thorough: 1-24), adversarial templates (flush first, helper after commit, unserialisable JSON then write, redirect code bounds, hooks around multi-write helpers); status codes 200-599 and 1xx (100-103, 199; echo.Response commits with them like with any other code); a quarter of the cases with a writer capacity at 0 / total-1 / total / random so writes come back short; a fifth through Echo.NewContext (Status starts at 0) instead of ServeHTTP; thorough: 4000 programs additionally behind a real httptest.Server (client status/body length vs Response.Status/Size; no 1xx codes there, net/http treats them as informational); Response fields and the recording writer are sampled after EVERY step; non-trivial = at least one operation after the headers went out AND (a hook registered, or flush as first operation, or a short write, or >=4 distinct tags); distinct = distinct model op lines",
+		Rule:           "handler programs over {WriteHeader, Write, Flush, Before, After, JSON (serialisable or not), String/HTML/JSONBlob/Blob, NoContent, Redirect (valid and invalid codes), Stream, XMLBlob, JSONPBlob, flush through http.ResponseController, flush through the FlushError convention (interface assertion, else Flush), Unwrap, io.Copy into the Response from a source without WriteTo}: exhaustive over a 15-op alphabet up to length 3 (thorough: 4, plus every program of length 5 over a 10-op core alphabet), random programs of 1-12 ops (thorough: 1-24), adversarial templates (flush first, helper after commit, unserialisable JSON then write, redirect code bounds, hooks around multi-write helpers); status codes 200-599 and 1xx (100-103, 199; echo.Response commits with them like with any other code); a quarter of the cases with a writer capacity at 0 / total-1 / total / random so writes come back short; half of the cases on an underlying writer that also implements io.ReaderFrom (like net/http's connection writer; httptest.ResponseRecorder does not); a fifth through Echo.NewContext (Status starts at 0) instead of ServeHTTP; thorough: 4000 programs additionally behind a real httptest.Server (client status/body length vs Response.Status/Size; no 1xx codes there, net/http treats them as informational); Response fields and the recording writer are sampled after EVERY step; non-trivial = at least one operation after the headers went out AND (a hook registered, or flush as first operation, or a short write, or >=4 distinct tags); distinct = distinct model op lines",
 		New:            func() any { return &c06Case{} },
 		Gen:            c06Gen,
 		Run:            c06Run,
